@@ -22,7 +22,9 @@ def pinned_units():
     return units(select=r'^eval_q_(rho_u|rho_w|rho_e|u|w|e)$', classes=CLASSES[2:], extra=extra, tag='@as_coded', key_suffix='.as_coded')
 
 def run(tier, seed):
-    return run_numeric('C03', units() + pinned_units(), tier, seed, design_ref='4/C03', lemmas=['lemma_energy_forms', 'lemma_jinv_forms', 'lemma_cyl_div'])
+    import p_c03n
+    return run_numeric('C03', units() + pinned_units() + p_c03n.units('c03'), tier, seed, design_ref='4/C03',
+                       lemmas=['lemma_energy_forms', 'lemma_jinv_forms', 'lemma_cyl_div'], trusted_extra=p_c03n.TRUSTED)
 
 def run_diag(tier='quick', seed=1):
     """NOT a check of C03 and never called by ./check: proves that the axisymmetric sources equal the *as-coded* operator
